@@ -57,6 +57,15 @@ def cases(tier, seed):
                 for proj in (False, True, 2, 3):
                     for form in ("array2d", "array1d", "grid1", "grid2"):
                         yield dict(kind="mask", sub=list(sub), proj=proj, form=form)
+                        if not proj:
+                            # the same geometry at coordinate magnitudes of 1e-9 and 1e6 (powers of two: exact): seed C15-9, an
+                            # absolute tolerance in the threshold test
+                            for sc in (2.0 ** -30, 2.0 ** 20):
+                                yield dict(kind="mask", sub=list(sub), proj=proj, form=form, sc=sc)
+                        if form == "grid1":
+                            # other ways of building the same Dataset: easting declared first (seed C15-10)
+                            for build in ("to_dataset", "coords_first", "from_dataarray"):
+                                yield dict(kind="mask", sub=list(sub), proj=proj, form=form, build=build)
                         if form in ("array1d", "grid2"):
                             yield dict(kind="mask", sub=list(sub), proj=proj, form=form, rep=("int_e", "int_n", "int")[(sum(sub) + int(proj)) % 3])
     yield dict(kind="mask_invalid")
@@ -244,6 +253,7 @@ def run(case, rec):
         kw = {}
         if proj:
             kw["projection"] = _projfn(proj)
+        sc = case.get("sc", 1.0)
         for kind_t, t in thresholds:
             want = np.zeros(qe.shape, dtype=bool)
             t4 = F(t) * F(t) * unit * unit
@@ -251,7 +261,10 @@ def run(case, rec):
                 want[idx] = v <= t4
             if form.startswith("array"):
                 a, b = (qe, qn) if form == "array2d" else (qe.ravel(), qn.ravel())
-                got = call(rec, vd.distance_mask, (e, n), t, coordinates=(a, b), **kw)
+                if sc != 1.0:
+                    got = call(rec, vd.distance_mask, (e * sc, n * sc), t * sc, coordinates=(a * sc, b * sc), **kw)
+                else:
+                    got = call(rec, vd.distance_mask, (e, n), t, coordinates=(a, b), **kw)
                 if raised(got):
                     rec.check(False, "distance_mask raised %r" % (got,))
                     return
@@ -266,8 +279,18 @@ def run(case, rec):
                 dvars = {"a": (("northing", "easting"), vals)}
                 if form == "grid2":
                     dvars["b"] = (("northing", "easting"), -vals)
-                grid = xr.Dataset(dvars, coords={"easting": np.array(QE), "northing": np.array(QN)})
-                got = call(rec, vd.distance_mask, (e, n), t, grid=grid, **kw)
+                build = case.get("build", "dataset")
+                ce_, cn_ = np.array(QE) * sc, np.array(QN) * sc
+                if build == "to_dataset":
+                    grid = xr.DataArray(vals, coords={"easting": ce_, "northing": cn_}, dims=("northing", "easting")).to_dataset(name="a")
+                elif build == "from_dataarray":
+                    grid = xr.Dataset({"a": xr.DataArray(vals, coords={"easting": ce_, "northing": cn_}, dims=("northing", "easting"))})
+                elif build == "coords_first":
+                    grid = xr.Dataset(coords={"easting": ce_, "northing": cn_})
+                    grid["a"] = (("northing", "easting"), vals)
+                else:
+                    grid = xr.Dataset(dvars, coords={"easting": ce_, "northing": cn_})
+                got = call(rec, vd.distance_mask, (e * sc, n * sc) if sc != 1.0 else (e, n), t * sc, grid=grid, **kw)
                 if raised(got):
                     rec.check(False, "distance_mask(grid) raised %r" % (got,))
                     return
